@@ -15,6 +15,7 @@ import (
 	"math/rand/v2"
 	"os"
 	"strconv"
+	"strings"
 	"testing"
 	"time"
 
@@ -347,6 +348,38 @@ func TestErrors(t *testing.T) {
 			if int(jrpc2.ErrorCode(cerr)) != c {
 				add(c, "Call", fmt.Sprintf("code %d arrived as %d (%v)", c, jrpc2.ErrorCode(cerr), cerr))
 			}
+		}
+		// an error reply that has been handed to its call is what the call returns - also when the caller's context ends
+		// right afterwards (the client's log line "Completed request" is written inside the delivery, after the hand-over:
+		// the logger cancels the context there; same for a deadline that passes there)
+		{
+			var cancel context.CancelFunc
+			loc2 := server.NewLocal(mux, &server.LocalOptions{
+				Server: &jrpc2.ServerOptions{Concurrency: 1},
+				Client: &jrpc2.ClientOptions{Logger: func(text string) {
+					if strings.Contains(text, "Completed request") && cancel != nil {
+						cancel()
+					}
+				}},
+			})
+			for k, he := range []error{jrpc2.Errorf(77, "boom").WithData(map[string]any{"k": []int{1, 2, 3}}), jrpc2.Errorf(jrpc2.InvalidParams, "no"), errors.New("plain failure"),
+				&jrpc2.Error{Code: 5}, fmt.Errorf("wrapped: %w", jrpc2.Errorf(9, "inner"))} {
+				current = he
+				var cctx context.Context
+				cctx, cancel = context.WithCancel(context.Background())
+				_, cerr := loc2.Client.Call(cctx, "fail", nil)
+				cancel()
+				res.Evaluations++
+				if cerr == context.Canceled || jrpc2.ErrorCode(cerr) != jrpc2.ErrorCode(he) {
+					add(fmt.Sprintf("error %d", k), "Call, context ended right after the reply was handed over", fmt.Sprintf("the handler failed with %v (code %d); the caller got %v (code %d)", he, jrpc2.ErrorCode(he), cerr, jrpc2.ErrorCode(cerr)))
+				} else if je, ok := he.(*jrpc2.Error); ok {
+					if ce, ok := cerr.(*jrpc2.Error); !ok || ce.Message != je.Message || !jsonEqual(nullAsAbsent(ce.Data), nullAsAbsent(je.Data)) {
+						add(fmt.Sprintf("error %d", k), "Call, context ended right after the reply was handed over", fmt.Sprintf("*Error changed in transit: sent %+v, got %+v", je, cerr))
+					}
+				}
+			}
+			cancel = nil
+			loc2.Close()
 		}
 		// WithData never modifies its receiver
 		for _, d := range []any{nil, 1, "x", map[string]int{"a": 1}, make(chan int), math.NaN(), json.RawMessage(`{"k": [1, 2]}`)} {
